@@ -87,7 +87,16 @@ MANIFEST_NOTE = (
     "applied. Translator (round four): a source change that leaves the grammar of tr_c19.py (documented in its header; "
     "e.g. try/catch, loops, a new kind of statement in a future member) is reported as a broken obligation even if it is "
     "behaviour preserving; restyling inside the grammar (renamed locals, std::exchange, commuted conditions, != 0 for > 0, "
-    "early return, other swap order, static_cast, other exception texts) is silent. The constructors' communicator "
+    "early return, other swap order, static_cast, other exception texts) is silent. Round five: the translator normalises "
+    "before its grammar - side-effect-free int/bool member helpers and plain void helpers of MPIGuard are inlined at their "
+    "calls, member functions of the future classes defined after the class (other template parameter names) are read as "
+    "in-class definitions, the wrapped members of Future<T>/FutureModel may have any name, conditional expression / if-else / "
+    "inverted guard / && spellings of a two-way return, if-else with a DUNE_THROW branch for the guard clause, null tests "
+    "(!= nullptr, static_cast<bool>, == false), this->, 'return flag != 0', void validity helpers of the future classes and a "
+    "pointer/reference alias of future.req_ in the non-blocking members give the same generated text (self test: "
+    "tools/translators/tr_c19.py --selftest, 16 quiet / 30 loud edits). Still reported although harmless: loops, "
+    "try/catch, helpers with locals or early returns, value helpers in the future classes, members of the nested FutureModel "
+    "defined outside the class, renamed data members of MPIFuture/Buffer/PseudoFuture, reordered statements. The constructors' communicator "
     "argument and GuardCommunicator are not translated (run + oracle only), of the non-blocking members of (mpi)communication.hh "
     "only the construction/return of the future is (lengths, datatypes, the reduction: C07); "
     "finalize() on a guard that is not armed is modelled and proved silent (unarmed_finalize_never_throws) but not generated."
@@ -120,12 +129,12 @@ RULE = ("translator: Gen/C19.lean regenerated from the tree under test before th
         "rank made a judged call (idle-only ranks and steps consisting of '-'/'c' only are trivial)")
 ASSUMPTIONS = [
     "MPI is trusted: collectives on one communicator match in order and deliver the sum to every member; a request completes iff its operation completed; MPI_Wait returns then; MPI_Test may answer 'not complete' for an active request",
-    "the Lean model lean/DuneVerif/Model/C19.lean is hand-written; since round four the bodies of finalize/reactivate/~MPIGuard, the constructors' active_ initialisers and defaults, the members valid/wait/ready/get/get_send_data/operator=/move constructor of the future classes and the future-construction part of the non-blocking members of both communication classes are regenerated from the source by tools/translators/tr_c19.py and proved equal to it (gen_* theorems); the meaning given to the statement kinds (lean Interp.*: MPI_Wait, MPI_Test, buffer get) and everything else (communicators, non-blocking members of the communication classes, wrappers) rests on this differential run",
+    "the Lean model lean/DuneVerif/Model/C19.lean is hand-written; since round four the bodies of finalize/reactivate/~MPIGuard, the constructors' active_ initialisers and defaults, the members valid/wait/ready/get/get_send_data/operator=/move constructor of the future classes and the future-construction part of the non-blocking members of both communication classes are regenerated from the source by tools/translators/tr_c19.py and proved equal to it (gen_* theorems); the translator's normalisations of round five (helper inlining, out-of-class definitions pulled in, canonical member names, one spelling for two-way returns / guard clauses / null tests, alias of future.req_) are part of the trusted translator: each rewrites only between spellings that C++ defines to mean the same and refuses (broken obligation) whatever it cannot recognise; the meaning given to the statement kinds (lean Interp.*: MPI_Wait, MPI_Test, buffer get) and everything else (communicators, non-blocking members of the communication classes, wrappers) rests on this differential run",
     "theorems sections_agree/agreement/no_failure_no_error assume a matched end of the case (no member or every member of a communicator ends with a successful reactivate()); guard_deadlock_iff proves that exactly the other cases deadlock (a rank that re-armed owes another section); the harness and the driver reject those lines",
     "a re-used future variable is assigned to only after its previous operation has been waited for or taken (the harness never assigns over a request in flight: ~MPIFuture would MPI_Cancel it); the previous operation has the same kind and other values in every entry",
     "the collective results the futures deliver (sum/min/max, gather, scatter, broadcast, send/recv) are computed from the contributions at specification level; their MPI implementation is C07's subject",
 ]
-TRUSTED = ["translator tools/translators/tr_c19.py (statement grammar -> Lean programs / statement lists)", "mpicxx/g++/libstdc++, ASan/UBSan (incl. __asan_region_is_poisoned for the ownership oracle), Open MPI 4.1 (incl. its profiling interface)",
+TRUSTED = ["translator tools/translators/tr_c19.py (source normalisation, statement grammar -> Lean programs / statement lists)", "mpicxx/g++/libstdc++, ASan/UBSan (incl. __asan_region_is_poisoned for the ownership oracle), Open MPI 4.1 (incl. its profiling interface)",
            "harness/mpi_c19.cc (PMPI interposers, oracles; the completion-claim oracle knows MPI_Wait, MPI_Waitall, MPI_Test, MPI_Testall, MPI_Request_get_status as ways of asking MPI about a request) + Driver/C19.lean parsing/printing"]
 
 
